@@ -101,6 +101,11 @@ class Module:
         locals by canonical names whatever the source calls them."""
         fn = self.func(qual)
         ct = self.ctypes.get(qual)
+        inlined = False
+        if not self.rel.endswith(".pyx"):
+            from .inline import inline_new_helpers
+            fn, expanded = inline_new_helpers(self, qual, fn)
+            inlined = bool(expanded)
         if roles is None:
             from .rolespecs import ROLES
             try:
@@ -110,7 +115,7 @@ class Module:
             roles = {**AUTO.get((self.rel, qual), {}), **ROLES.get((self.rel, qual), {})}
         if roles and not self.rel.endswith(".pyx"):
             from .roles import canonicalise
-            fn, _ = canonicalise(self.text, fn, roles)
+            fn, _ = canonicalise(self.text, fn, roles, synthetic=inlined)
         return Ev(fn, self.ctx, ctypes=ct, **kw).run()
 
     def seg(self, node) -> str:
